@@ -25,7 +25,8 @@ ASSUMPTIONS = [
 
 
 def proof_targets(tier):
-  return [('heapdict', None, True),
+  return [('heapdict', None, True), ('tbrmmscore', None, False),
+          ('tbrmmdesign', None, False),
           ('tbrmatchedmarkets', ['TBRMatchedMarkets.search_results',
                                  'TBRMatchedMarkets.exhaustive_search',
                                  'TBRMatchedMarkets.greedy_search'], False)]
